@@ -310,6 +310,27 @@ func RunIntegrity(spec IntegritySpec) vx.Out {
 				bad("C07 C10 valid publish refused", "body %q: %d", b, code)
 			}
 		}
+	case "hpubchunk":
+		// the same with Transfer-Encoding: chunked (no declared length)
+		for _, b := range bodies {
+			if code, _, _ := w.DoRaw(HTTPCase{Method: "POST", Path: "/pub", Query: "topic=t", Body: string(b), Chunk: true}); code != 200 {
+				bad("C07 C10 valid publish refused", "chunked body %q: %d", b, code)
+			}
+		}
+	case "hmpubchunk":
+		var strs []string
+		for _, b := range bodies {
+			strs = append(strs, string(b))
+		}
+		for i := 0; i < len(strs); i += 50 {
+			j := i + 50
+			if j > len(strs) {
+				j = len(strs)
+			}
+			if code, _, _ := w.DoRaw(HTTPCase{Method: "POST", Path: "/mpub", Query: "topic=t&binary=true", Body: string(mpubBody(strs[i:j]...)), Chunk: true}); code != 200 {
+				bad("C07 C10 valid publish refused", "chunked /mpub binary: %d", code)
+			}
+		}
 	case "hmpub":
 		if code, _ := w.Do("POST", "/mpub?topic=t", bytes.Join(bodies, []byte("\n"))); code != 200 {
 			bad("C07 C10 valid publish refused", "/mpub text: %d", code)
